@@ -143,3 +143,388 @@ Proof.
     destruct (l_alive _ _ _ L st (c_id c) Ht Hin) as (c' & A' & B' & C').
     assert (c' = c) by (eapply NoDup_cid_eq; eassumption). subst c'. congruence.
 Qed.
+
+Lemma LInvP_unskip pair t s :
+  LInvP pair (Some t) s ->
+  (forall ss, In ss (v_sess s) -> s_id ss = t -> nontcp_running ss = false -> s_conns ss <> []) ->
+  LInvP pair None s.
+Proof.
+  intros L H. constructor; try apply L. intros ss Hs _ Hn. destruct (N.eq_dec (s_id ss) t) as [E|E].
+  - apply H; assumption.
+  - apply (l_inuse _ _ _ L ss Hs); [congruence | exact Hn].
+Qed.
+
+(* ---- closing a connection ---- *)
+Lemma close_conn_LInv s cid s' :
+  LInv s -> NoDup (map s_id (v_sess s)) -> NoDup (map c_id (v_conns s)) ->
+  close_conn s cid = Some s' -> LInv s'.
+Proof.
+  intros L ND NDc H. unfold close_conn in H. destruct (find_conn cid (v_conns s)) as [c|] eqn:F; [|inv H; exact L].
+  apply find_conn_In in F. destruct F as [Hc Hcid]. subst cid.
+  (* removing the connection does not hurt a session it is not paired with *)
+  assert (Alive : forall x k, In x (v_sess s) -> c_sess c <> Some (s_id x) -> In k (s_conns x) ->
+            exists c', In c' (del_conn (c_id c) (v_conns s)) /\ c_id c' = k /\ c_sess c' = Some (s_id x)).
+  { intros x k Hx Hne Hk. destruct (l_alive _ _ _ L x k Hx Hk) as (c' & A & B & C). exists c'. split; [|tauto].
+    apply In_del_conn. split; [exact A|]. intros E. assert (c' = c) by (eapply NoDup_cid_eq; eassumption). subst c'. congruence. }
+  match type of H with context [mkSrv (del_conn (c_id c) (v_conns s)) ?a ?b ?c0 ?d ?e ?f0 ?g ?h] =>
+    set (s1 := mkSrv (del_conn (c_id c) (v_conns s)) a b c0 d e f0 g h) in * end.
+  assert (L1 : (forall x, In x (v_sess s) -> c_sess c <> Some (s_id x)) -> LInv s1).
+  { intros Hn. constructor; cbn [v_sess v_conns s1]; try apply L. intros x k Hx Hk. apply Alive; auto. }
+  destruct (c_sess c) as [sid|] eqn:Ecs; [|inv H; apply L1; discriminate].
+  destruct (find_sess sid (v_sess s1)) as [ss|] eqn:Fs.
+  2:{ inv H. apply L1. intros x Hx E. inv E. cbn [v_sess s1] in Fs. apply find_sess_None in Fs. apply Fs. apply in_map. exact Hx. }
+  apply find_sess_In in Fs. destruct Fs as [Hs Hid]. subst sid. cbn [v_sess s1] in Hs.
+  match type of H with context [set_sess s1 ?y] => set (ss' := y) in * end.
+  assert (L2 : LInvP c_sess (Some (s_id ss)) (set_sess s1 ss')).
+  { unfold set_sess. cbn [v_conns v_sess v_readers v_active v_mcount v_mwriters v_rtp v_rtcp v_next s1].
+    constructor; cbn [v_sess v_conns].
+    - intros x Hx. apply In_put_sess in Hx. destruct Hx as [[-> _]|[Hx _]]; [|apply L; exact Hx].
+      pose proof (l_timer _ _ _ L ss Hs) as Q. exact Q.
+    - intros x Hx Hk Hn. apply In_put_sess in Hx. destruct Hx as [[-> _]|[Hx Hne]]; [exfalso; apply Hk; reflexivity|].
+      apply (l_inuse _ _ _ L x Hx); [discriminate | exact Hn].
+    - intros x k Hx Hk. apply In_put_sess in Hx. destruct Hx as [[-> _]|[Hx Hne]].
+      + cbn [s_conns ss' ss_with_conns] in Hk. apply In_nremove in Hk. destruct Hk as [Hk Hkc].
+        destruct (l_alive _ _ _ L ss k Hs Hk) as (c' & A & B & C). exists c'. split; [|tauto].
+        apply In_del_conn. split; [exact A | congruence].
+      + apply Alive; try assumption. cbn in Hne. congruence. }
+  assert (NDs : NoDup (map s_id (v_sess (set_sess s1 ss')))) by (cbn [set_sess v_sess]; rewrite map_id_put_sess; exact ND).
+  assert (NDc' : NoDup (map c_id (v_conns (set_sess s1 ss')))) by (cbn [set_sess v_conns s1]; apply NoDup_map_filter; exact NDc).
+  assert (End : forall s3, end_session (set_sess s1 ss') (s_id ss) = Some s3 -> LInv s3).
+  { intros s3 E. pose proof (end_session_LInv _ _ _ _ _ L2 NDs NDc' E) as L3.
+    apply (LInvP_unskip _ (s_id ss)); [exact L3|]. intros x Hx Ex. exfalso.
+    assert (Fx : find_sess (s_id ss) (v_sess (set_sess s1 ss')) = Some ss').
+    { cbn [set_sess v_sess s1]. change (s_id ss) with (s_id ss'). apply find_put_sess_same. cbn. apply in_map. exact Hs. }
+    destruct (end_session_shape _ _ _ _ Fx E) as [Hse _]. rewrite Hse in Hx. apply In_del_sess in Hx. tauto. }
+  assert (Keep : (nontcp_running ss' = false -> s_conns ss' <> []) -> LInv (set_sess s1 ss')).
+  { intros Hk. apply (LInvP_unskip _ (s_id ss)); [exact L2|]. intros x Hx Ex Hn.
+    cbn [set_sess v_sess s1] in Hx. apply In_put_sess in Hx. destruct Hx as [[-> _]|[_ Hne]]; [apply Hk; exact Hn|].
+    exfalso. apply Hne. cbn. exact Ex. }
+  unfold nontcp_running, running, is_tcp in Keep. cbn [s_state s_tr ss' ss_with_conns] in Keep, H.
+  destruct (s_state ss) eqn:Est; cbn [negb] in H;
+    try (destruct (s_conns ss') eqn:Ecn; [apply End; exact H | inv H; apply Keep; intros _; try rewrite Ecn; discriminate]).
+  all: destruct (s_tr ss) as [[[] b]|] eqn:Etr; try discriminate;
+       try (inv H; apply Keep; cbn; discriminate);
+       try (destruct (s_conns ss') eqn:Ecn; [apply End; exact H | inv H; apply Keep; intros _; try rewrite Ecn; discriminate]).
+Qed.
+
+(* ---- a request handled by a session ---- *)
+Lemma LInvP_ext pair skip s s' :
+  v_sess s' = v_sess s -> v_conns s' = v_conns s -> LInvP pair skip s -> LInvP pair skip s'.
+Proof. intros E1 E2 L. constructor; rewrite ?E1, ?E2; apply L. Qed.
+
+Lemma put_put a b l : s_id a = s_id b -> put_sess a (put_sess b l) = put_sess a l.
+Proof.
+  intros E. unfold put_sess. rewrite map_map. apply map_ext. intros x.
+  destruct (s_id x =? s_id b) eqn:E1.
+  - rewrite <- E, N.eqb_refl. rewrite E, E1. reflexivity.
+  - reflexivity.
+Qed.
+
+Lemma LInvP_put' pair skip skip' s s' ss ss' :
+  LInvP pair skip s -> NoDup (map s_id (v_sess s)) -> In ss (v_sess s) -> s_id ss' = s_id ss ->
+  v_conns s' = v_conns s -> v_sess s' = put_sess ss' (v_sess s) ->
+  Qt ss' ->
+  (Some (s_id ss) <> skip' -> nontcp_running ss' = false -> s_conns ss' <> []) ->
+  (forall x, Some x <> skip' -> Some x <> skip) ->
+  (forall cid, In cid (s_conns ss') -> exists c, In c (v_conns s) /\ c_id c = cid /\ pair c = Some (s_id ss)) ->
+  LInvP pair skip' s'.
+Proof.
+  intros L ND HI E Ec Es Q U Sk A.
+  pose proof (LInvP_put pair skip skip' s ss ss' (v_readers s) (v_active s) (v_mcount s) (v_mwriters s) (v_rtp s) (v_rtcp s)
+                        L ND HI E Q U Sk A) as L'.
+  eapply LInvP_ext; [| |exact L']; cbn [v_sess v_conns]; assumption.
+Qed.
+
+Definition repair (c : conn) (sess' : option N) : conn -> option N :=
+  fun x => if c_id x =? c_id c then sess' else c_sess x.
+
+Lemma sess_request_LInv ex p0 g s c ss0 r s2 st e sess' adv :
+  InvX ex s -> LInvP p0 None s -> (forall x, c_id x <> c_id c -> p0 x = c_sess x) ->
+  In c (v_conns s) -> In ss0 (v_sess s) ->
+  (p0 c = None \/ p0 c = Some (s_id ss0)) ->
+  sess_request g s c ss0 r = Some (s2, st, e, sess', adv) ->
+  LInvP (repair c sess') None s2.
+Proof.
+  intros I L Hp0 Hc HI Hp H. unfold sess_request in H.
+  pose proof (inv_nd _ s I) as ND. pose proof (inv_ndc _ s I) as NDc.
+  match type of H with context [sess_inner g (set_sess s ?y) c ?y r] => set (ss := y) in * end.
+  destruct (sess_inner g (set_sess s ss) c ss r) as [[[[s1 ss1] st1] e1]|] eqn:Ei; [|discriminate].
+  assert (OK : SessOK ss) by (apply SessOK_with_conns; apply (inv_ok _ s I ss0 HI)).
+  destruct (sess_inner_local _ _ _ _ _ _ _ _ _ Ei OK) as (Lc & Lip & Lq).
+  apply (sess_inner_frame _ _ _ _ _ _ _ _ _ (N.succ (s_id ss))) in Ei; [|lia].
+  destruct Ei as (Fs & Fc & _ & Fid & _). cbn [set_sess v_sess v_conns] in Fs, Fc.
+  assert (Q1 : Qt ss1) by (apply Lq; exact (l_timer _ _ _ L ss0 HI)).
+  (* no other session lists the connection *)
+  assert (Uniq : forall u, In u (v_sess s) -> In (c_id c) (s_conns u) -> u = ss0).
+  { intros u Hu Hin. destruct (l_alive _ _ _ L u (c_id c) Hu Hin) as (c' & A & B & C).
+    assert (c' = c) by (eapply NoDup_cid_eq; eassumption). subst c'.
+    destruct Hp as [Hp|Hp]; [congruence|]. eapply NoDup_id_eq; try eassumption. congruence. }
+  assert (Old : forall cid, In cid (s_conns ss0) -> cid <> c_id c ->
+            forall p, (forall x, c_id x <> c_id c -> p x = c_sess x) ->
+            exists c', In c' (v_conns s) /\ c_id c' = cid /\ p c' = Some (s_id ss0)).
+  { intros cid Hin Hne p Hpx. destruct (l_alive _ _ _ L ss0 cid HI Hin) as (c' & A & B & C).
+    exists c'. repeat split; try assumption. rewrite Hpx by congruence. rewrite <- Hp0 by congruence. exact C. }
+  (* the generic ending: the session stays, the connection is paired with it *)
+  assert (Gen : forall a, Some (set_sess s1 ss1, st1, e1, Some (s_id ss1), a) = Some (s2, st, e, sess', adv) ->
+                    LInvP (repair c sess') None s2).
+  { intros a E0. inv E0.
+    assert (Lp : LInvP (repair c (Some (s_id ss1))) None s).
+    { apply (LInvP_pair p0); [exact L|]. intros c0 u Hc0 Hu Hin Hcs. unfold repair.
+      destruct (c_id c0 =? c_id c) eqn:E0; [|apply N.eqb_neq in E0; rewrite <- Hp0 by exact E0; exact Hcs]. apply N.eqb_eq in E0.
+      assert (c0 = c) by (eapply NoDup_cid_eq; eassumption). subst c0.
+      rewrite (Uniq u Hu Hin). rewrite Fid. reflexivity. }
+    apply (LInvP_put' _ None None s _ ss0 ss1).
+    - exact Lp.
+    - exact ND.
+    - exact HI.
+    - exact Fid.
+    - cbn [set_sess v_conns]. exact Fc.
+    - cbn [set_sess v_sess]. rewrite Fs. apply put_put. exact Fid.
+    - exact Q1.
+    - intros _ _. rewrite Lc. cbn [s_conns ss ss_with_conns]. intros E0.
+      assert (Hmem : In (c_id c) (nadd (c_id c) (s_conns ss0))) by (apply In_nadd; tauto). rewrite E0 in Hmem. destruct Hmem.
+    - tauto.
+    - intros cid Hin. rewrite Lc in Hin. cbn [s_conns ss ss_with_conns] in Hin. apply In_nadd in Hin.
+      destruct (N.eq_dec cid (c_id c)) as [->|Hne].
+      + exists c. repeat split; try assumption. unfold repair. rewrite N.eqb_refl. rewrite Fid. reflexivity.
+      + destruct Hin as [?|Hin]; [contradiction|]. apply (Old cid Hin Hne). intros x Hx. unfold repair.
+        destruct (c_id x =? c_id c) eqn:E0; [apply N.eqb_eq in E0; contradiction | reflexivity]. }
+  destruct (r_method r); try (eapply Gen; exact H).
+  destruct (match e1 with RErr => false | _ => true end); [|eapply Gen; exact H].
+  (* TEARDOWN: the connection leaves the session, the session ends *)
+  match type of H with context [set_sess s1 ?y] => set (ss2 := y) in * end.
+  destruct (end_session (set_sess s1 ss2) (s_id ss2)) as [s3|] eqn:E3; [|discriminate]. inv H.
+  assert (Lm : LInvP p0 (Some (s_id ss0)) (set_sess s1 ss2)).
+  { apply (LInvP_put' _ None (Some (s_id ss0)) s _ ss0 ss2).
+    - exact L.
+    - exact ND.
+    - exact HI.
+    - exact Fid.
+    - cbn [set_sess v_conns]. exact Fc.
+    - cbn [set_sess v_sess]. rewrite Fs. apply put_put. exact Fid.
+    - exact Q1.
+    - intros Hk. exfalso. apply Hk. reflexivity.
+    - discriminate.
+    - intros cid Hin. cbn [s_conns ss2 ss_with_conns] in Hin. apply In_nremove in Hin. destruct Hin as [Hin Hne].
+      rewrite Lc in Hin. cbn [s_conns ss ss_with_conns] in Hin. apply In_nadd in Hin.
+      destruct Hin as [?|Hin]; [contradiction|]. apply (Old cid Hin Hne). intros x Hx. apply Hp0. exact Hx. }
+  assert (Lt : LInvP (repair c None) (Some (s_id ss0)) (set_sess s1 ss2)).
+  { apply (LInvP_pair p0); [exact Lm|]. intros c0 u Hc0 Hu Hin Hcs. unfold repair.
+    destruct (c_id c0 =? c_id c) eqn:E0; [|apply N.eqb_neq in E0; rewrite <- Hp0 by exact E0; exact Hcs]. apply N.eqb_eq in E0. exfalso.
+    cbn [set_sess v_sess] in Hu. rewrite Fs, put_put in Hu by (cbn; rewrite Fid; reflexivity).
+    apply In_put_sess in Hu. destruct Hu as [[-> _]|[Hu Hne]].
+    - cbn [s_conns ss2 ss_with_conns] in Hin. apply In_nremove in Hin. tauto.
+    - rewrite E0 in Hin. apply Hne. rewrite (Uniq u Hu Hin). cbn. rewrite Fid. reflexivity. }
+  assert (NDs : NoDup (map s_id (v_sess (set_sess s1 ss2)))).
+  { cbn [set_sess v_sess]. rewrite map_id_put_sess, Fs, map_id_put_sess. exact ND. }
+  assert (NDc' : NoDup (map c_id (v_conns (set_sess s1 ss2)))) by (cbn [set_sess v_conns]; rewrite Fc; exact NDc).
+  pose proof (end_session_LInv _ _ _ _ _ Lt NDs NDc' E3) as L3.
+  apply (LInvP_unskip _ (s_id ss0)); [exact L3|]. intros x Hx Ex. exfalso.
+  assert (Fx : find_sess (s_id ss2) (v_sess (set_sess s1 ss2)) = Some ss2).
+  { cbn [set_sess v_sess]. apply find_put_sess_same. rewrite Fs, map_id_put_sess. cbn. rewrite Fid. change (s_id ss) with (s_id ss0). apply in_map. exact HI. }
+  destruct (end_session_shape _ _ _ _ Fx E3) as [Hse _]. rewrite Hse in Hx. apply In_del_sess in Hx.
+  destruct Hx as [_ Hx]. apply Hx. cbn. rewrite Fid. exact Ex.
+Qed.
+
+
+Lemma LInvP_same' c s sess' : LInv s -> In c (v_conns s) -> NoDup (map c_id (v_conns s)) -> sess' = c_sess c ->
+  LInvP (repair c sess') None s.
+Proof.
+  intros L Hc ND ->. apply (LInvP_pair c_sess); [exact L|]. intros c0 u Hc0 Hu Hin Hcs. unfold repair.
+  destruct (c_id c0 =? c_id c) eqn:E; [|exact Hcs]. apply N.eqb_eq in E.
+  assert (c0 = c) by (eapply NoDup_cid_eq; eassumption). subst c0. exact Hcs.
+Qed.
+
+Lemma in_session_LInv g s c r create s1 st e sess' adv :
+  Inv s -> LInv s -> In c (v_conns s) ->
+  in_session g s c r create = Some (s1, st, e, sess', adv) ->
+  LInvP (repair c sess') None s1.
+Proof.
+  intros I L Hc H. unfold in_session in H. pose proof (inv_ndc _ s I) as NDc.
+  assert (Same : forall (st0 : N) (e0 : rerr) (a : option N),
+            Some (s, st0, e0, c_sess c, a) = Some (s1, st, e, sess', adv) -> LInvP (repair c sess') None s1).
+  { intros st0 e0 a E. inv E. apply LInvP_same'; auto. }
+  destruct (c_sess c) as [sid|] eqn:Ecs.
+  - dH H; [eapply Same; exact H|].
+    destruct (find_sess sid (v_sess s)) as [ss|] eqn:F; [|eapply Same; exact H].
+    apply find_sess_In in F. destruct F as [HI Hid]. subst sid.
+    eapply (sess_request_LInv None c_sess); try eassumption; [reflexivity | right; exact Ecs].
+  - dHas H ipattern:([ss|]) F.
+    + assert (HI : In ss (v_sess s)) by (destruct (r_sess r); [apply find_sess_In in F; tauto | discriminate]).
+      dH H.
+      * inv H. apply LInvP_same'; auto.
+      * eapply (sess_request_LInv None c_sess); try eassumption; [reflexivity | left; exact Ecs].
+    + destruct create.
+      2:{ inv H. apply LInvP_same'; auto. }
+      match type of H with sess_request g ?sn c ?ssn r = _ => set (s0 := sn) in *; set (ssn0 := ssn) in * end.
+      assert (I0 : InvX None s0) by (apply Inv_new_sess; exact I).
+      (* the new session is paired with its author *)
+      assert (L0 : LInvP (repair c (Some (v_next s))) None s0).
+      { constructor; cbn [v_sess v_conns s0].
+        - intros x [<-|Hx]; [|apply L; exact Hx]. intros Hq. unfold nontcp_running, running in Hq. cbn in Hq. discriminate.
+        - intros x [<-|Hx] _ Hq; [cbn; discriminate | apply (l_inuse _ _ _ L x Hx); [discriminate | exact Hq]].
+        - intros x k [<-|Hx] Hk.
+          + cbn in Hk. destruct Hk as [<-|[]]. exists c. unfold repair. rewrite N.eqb_refl. cbn. tauto.
+          + destruct (l_alive _ _ _ L x k Hx Hk) as (c' & A & B & C). exists c'. repeat split; try assumption.
+            unfold repair. destruct (c_id c' =? c_id c) eqn:E0; [|exact C]. apply N.eqb_eq in E0.
+            assert (c' = c) by (eapply NoDup_cid_eq; eassumption). subst c'. congruence. }
+      eapply (sess_request_LInv None (repair c (Some (v_next s)))); try eassumption.
+      * intros x Hx. unfold repair. destruct (c_id x =? c_id c) eqn:E0; [apply N.eqb_eq in E0; contradiction | reflexivity].
+      * left. reflexivity.
+      * right. unfold repair. rewrite N.eqb_refl. reflexivity.
+Qed.
+
+Lemma conn_request_LInv g s c r s1 st e sess' adv :
+  Inv s -> LInv s -> In c (v_conns s) ->
+  conn_request g s c r = Some (s1, st, e, sess', adv) ->
+  LInvP (repair c sess') None s1.
+Proof.
+  intros I L Hc H. unfold conn_request in H. pose proof (inv_ndc _ s I) as NDc.
+  assert (Same : forall (st0 : N) (e0 : rerr), Some (s, st0, e0, c_sess c, @None N) = Some (s1, st, e, sess', adv) ->
+            LInvP (repair c sess') None s1).
+  { intros st0 e0 E. inv E. apply LInvP_same'; auto. }
+  dH H; [eapply Same; exact H|]. dH H; [eapply Same; exact H|]. cbv zeta in H.
+  destruct (r_method r); repeat dmatch; try (eapply Same; exact H); try (eapply in_session_LInv; eassumption).
+Qed.
+
+Lemma LInvP_set_conn c c1 sess' s :
+  LInvP (repair c sess') None s -> c_id c1 = c_id c -> c_sess c1 = sess' ->
+  In (c_id c) (map c_id (v_conns s)) -> LInv (set_conn s c1).
+Proof.
+  intros L E Es Hin. constructor; cbn [set_conn v_sess v_conns]; try apply L.
+  intros x k Hx Hk. destruct (l_alive _ _ _ L x k Hx Hk) as (c' & A & B & C).
+  destruct (N.eq_dec (c_id c') (c_id c)) as [E0|E0].
+  - exists c1. split; [apply In_put_conn_same; rewrite E; exact Hin|]. split; [congruence|].
+    unfold repair in C. rewrite E0, N.eqb_refl in C. congruence.
+  - exists c'. split; [apply In_put_conn_other; [exact A | congruence]|]. split; [exact B|].
+    unfold repair in C. destruct (c_id c' =? c_id c) eqn:E1; [apply N.eqb_eq in E1; contradiction | exact C].
+Qed.
+
+Lemma LInvP_gone c sess' s : LInvP (repair c sess') None s -> find_conn (c_id c) (v_conns s) = None -> LInv s.
+Proof.
+  intros L F. apply (LInvP_pair (repair c sess')); [exact L|]. intros c0 u Hc0 Hu Hin Hcs. unfold repair in Hcs.
+  destruct (c_id c0 =? c_id c) eqn:E; [|exact Hcs]. apply N.eqb_eq in E. exfalso.
+  apply find_conn_None in F. apply F. rewrite <- E. apply in_map. exact Hc0.
+Qed.
+
+Theorem step_LInv g s ev s' o :
+  Inv s -> LInv s -> 0 < c_nmedias g -> step g s ev = Some (s', o) -> LInv s'.
+Proof.
+  intros I L Hnm H. destruct ev as [ip tunnel|cid e|sid|sid]; cbn [step] in H.
+  - inv H. constructor; cbn [v_sess v_conns]; try apply L. intros x k Hx Hk.
+    destruct (l_alive _ _ _ L x k Hx Hk) as (c' & A & B & C). exists c'. split; [right; exact A | tauto].
+  - destruct (find_conn cid (v_conns s)) as [c|] eqn:F; [|inv H; exact L].
+    apply find_conn_In in F. destruct F as [Hc Hid]. subst cid.
+    pose proof (inv_nd _ s I) as ND. pose proof (inv_ndc _ s I) as NDc.
+    unfold conn_event in H.
+    assert (Close : forall s1 o1, match close_conn s (c_id c) with None => None | Some s1 => Some (s1, OClosed) end = Some (s1, o1) -> LInv s1).
+    { intros s1 o1 E. destruct (close_conn s (c_id c)) as [s2|] eqn:E2; [|discriminate]. inv E.
+      eapply close_conn_LInv; eassumption. }
+    destruct e as [r|ch| | |]; try (eapply Close; exact H).
+    + destruct (conn_request_spec g c s r I Hc Hnm) as (s1 & st & err & sess' & adv & Er & I1 & _ & Hsub & _).
+      rewrite Er in H. pose proof (conn_request_LInv _ _ _ _ _ _ _ _ _ I L Hc Er) as L1.
+      destruct (find_conn (c_id c) (v_conns s1)) as [c0|] eqn:F0.
+      2:{ inv H. eapply LInvP_gone; eassumption. }
+      match type of H with context [set_conn s1 ?y] => set (c1 := y) in * end.
+      assert (Hid0 : c_id c0 = c_id c) by (apply find_conn_In in F0; tauto).
+      assert (L2 : LInv (set_conn s1 c1)).
+      { apply (LInvP_set_conn c c1 sess'); [exact L1 | exact Hid0 | reflexivity|].
+        apply find_conn_In in F0. destruct F0 as [F0 _]. rewrite <- Hid0. apply in_map. exact F0. }
+      destruct err as [| |t].
+      * inv H. exact L2.
+      * destruct (close_conn (set_conn s1 c1) (c_id c)) as [s3|] eqn:E3; [|discriminate]. inv H.
+        eapply close_conn_LInv; [exact L2 | | | exact E3]; cbn [set_conn v_sess v_conns].
+        -- apply I1.
+        -- rewrite map_id_put_conn. apply I1.
+      * destruct t; [destruct sess'; [|discriminate]|]; inv H; exact L2.
+    + destruct (c_tcp c); [destruct (c_sess c); [|discriminate]; inv H; exact L | eapply Close; exact H].
+  - destruct (find_sess sid (v_sess s)) as [ss|]; [|inv H; exact L].
+    destruct (s_timer ss); [|inv H; exact L].
+    destruct (end_session s sid) as [s1|] eqn:E; [|discriminate]. inv H.
+    eapply end_session_LInv; [exact L | apply I | apply I | exact E].
+  - destruct (find_sess sid (v_sess s)) as [ss|]; [|inv H; exact L].
+    destruct (s_writer ss); [|inv H; exact L].
+    destruct (end_session s sid) as [s1|] eqn:E; [|discriminate]. inv H.
+    eapply end_session_LInv; [exact L | apply I | apply I | exact E].
+Qed.
+
+(* ---- the theorem ---- *)
+Lemma run_events_LInv g evs : forall s s' os,
+  Inv s -> LInv s -> 0 < c_nmedias g -> run_events g s evs = Some (s', os) -> Inv s' /\ LInv s'.
+Proof.
+  induction evs as [|e t IH]; intros s s' os I L Hnm H; cbn [run_events] in H.
+  - inv H. tauto.
+  - destruct (step g s e) as [[s1 o]|] eqn:E; [|discriminate].
+    destruct (run_events g s1 t) as [[s2 os2]|] eqn:E2; [|discriminate]. inv H.
+    destruct (step_ok g s e I Hnm) as (s1' & o' & E' & I1 & _). rewrite E in E'. injection E' as <- <-.
+    apply (IH s1 s' os2); [exact I1 | exact (step_LInv g s e s1 o I L Hnm E) | exact Hnm | exact E2].
+Qed.
+
+(* without connections, every remaining session has its timer armed *)
+Lemma quiescent_timers s : LInv s -> v_conns s = [] -> forall ss, In ss (v_sess s) -> s_timer ss = true.
+Proof.
+  intros L Hc ss Hs. destruct (nontcp_running ss) eqn:E.
+  - apply (l_timer _ _ _ L ss Hs). exact E.
+  - exfalso. pose proof (l_inuse _ _ _ L ss Hs) as Hn. destruct (s_conns ss) as [|k l] eqn:Ek.
+    + apply Hn; [discriminate | exact E | reflexivity].
+    + destruct (l_alive _ _ _ L ss k Hs) as (c & A & _); [rewrite Ek; left; reflexivity|]. rewrite Hc in A. destruct A.
+Qed.
+
+Lemma drain_empties g sl : forall s,
+  Inv s -> v_conns s = [] -> (forall ss, In ss (v_sess s) -> s_timer ss = true) ->
+  exists s', drain g s sl = Some s' /\ Inv s' /\ v_conns s' = [] /\
+             (forall x, In x (v_sess s') -> In x (v_sess s) /\ ~ In (s_id x) (map s_id sl)).
+Proof.
+  induction sl as [|x t IH]; intros s I Hc Ht; cbn [drain].
+  - exists s. split; [reflexivity|]. split; [exact I|]. split; [exact Hc|]. intros y Hy. split; [exact Hy | intros []].
+  - cbn [step]. destruct (find_sess (s_id x) (v_sess s)) as [ss|] eqn:F.
+    + pose proof (find_sess_In _ _ _ F) as [Hs Hid]. rewrite (Ht ss Hs).
+      destruct (end_session_ok None s (s_id x) I) as (s1 & E & I1 & _ & _). rewrite E.
+      destruct (end_session_shape _ _ _ _ F E) as [Hse Hce].
+      assert (Hc1 : v_conns s1 = []) by (rewrite Hce, Hc; reflexivity).
+      destruct (IH s1 I1 Hc1) as (s' & D & I' & Hc' & Hx').
+      { intros y Hy. rewrite Hse in Hy. apply In_del_sess in Hy. apply Ht. tauto. }
+      exists s'. split; [exact D|]. split; [exact I'|]. split; [exact Hc'|].
+      intros y Hy. destruct (Hx' y Hy) as [A B]. rewrite Hse in A. apply In_del_sess in A. destruct A as [A1 A2].
+      split; [exact A1|]. cbn [map In]. intros [E0|Hin]; [apply A2; symmetry; exact E0 | exact (B Hin)].
+    + destruct (IH s I Hc Ht) as (s' & D & I' & Hc' & Hx'). exists s'.
+      split; [exact D|]. split; [exact I'|]. split; [exact Hc'|].
+      intros y Hy. destruct (Hx' y Hy) as [A B]. split; [exact A|]. cbn [map In]. intros [E0|Hin]; [|exact (B Hin)].
+      apply find_sess_None in F. apply F. rewrite E0. apply in_map. exact A.
+Qed.
+
+(* resources_released: in every reachable state without connections, every remaining session has its
+   timer armed, and once those timers have fired no session is left, the multicast reader count is 0
+   and the multicast writers are released *)
+Theorem resources_released g evs s os :
+  0 < c_nmedias g -> run_events g srv0 evs = Some (s, os) -> v_conns s = [] ->
+  (forall ss, In ss (v_sess s) -> s_timer ss = true) /\
+  exists s', drain g s (v_sess s) = Some s' /\
+             v_conns s' = [] /\ v_sess s' = [] /\ v_mcount s' = 0 /\ v_mwriters s' = false.
+Proof.
+  intros Hnm H Hc. destruct (run_events_LInv g evs srv0 s os Inv_srv0 LInv_srv0 Hnm H) as [I L].
+  pose proof (quiescent_timers s L Hc) as Ht. split; [exact Ht|].
+  destruct (drain_empties g (v_sess s) s I Hc Ht) as (s' & D & I' & Hc' & Hx).
+  exists s'. split; [exact D|]. split; [exact Hc'|].
+  assert (Hs : v_sess s' = []).
+  { destruct (v_sess s') as [|y l] eqn:E; [reflexivity|]. exfalso.
+    destruct (Hx y (or_introl eq_refl)) as [A B]. apply B. apply in_map. exact A. }
+  split; [exact Hs|]. pose proof (inv_mcount _ s' I') as Mc. rewrite Hs in Mc. cbn in Mc.
+  split; [exact Mc|]. pose proof (inv_mwr _ s' I') as Mw. rewrite Mc in Mw.
+  destruct (v_mwriters s'); [|reflexivity]. exfalso. destruct Mw as [Mw _]. specialize (Mw eq_refl). lia.
+Qed.
+
+(* every session of every reachable state can be ended: by its timer, or by closing a connection that
+   exists and is paired with it *)
+Theorem sessions_mortal g evs s os ss :
+  0 < c_nmedias g -> run_events g srv0 evs = Some (s, os) -> In ss (v_sess s) ->
+  s_timer ss = true \/ exists c, In c (v_conns s) /\ In (c_id c) (s_conns ss) /\ c_sess c = Some (s_id ss).
+Proof.
+  intros Hnm H Hs. destruct (run_events_LInv g evs srv0 s os Inv_srv0 LInv_srv0 Hnm H) as [I L].
+  destruct (nontcp_running ss) eqn:E.
+  - left. apply (l_timer _ _ _ L ss Hs). exact E.
+  - right. pose proof (l_inuse _ _ _ L ss Hs) as Hn. destruct (s_conns ss) as [|k l] eqn:Ek.
+    + exfalso. apply Hn; [discriminate | exact E | reflexivity].
+    + destruct (l_alive _ _ _ L ss k Hs) as (c & A & B & C); [rewrite Ek; left; reflexivity|].
+      exists c. split; [exact A|]. split; [rewrite B; left; reflexivity | exact C].
+Qed.
